@@ -309,7 +309,9 @@ impl Topology<(), ()> {
         let mut modules = vec![root];
         let mut this = Self::default();
 
-        while let Some(module) = modules.pop() {
+        while !modules.is_empty() {
+            // first in, first out: the index predictions below rely on it
+            let module = modules.remove(0);
             let gates = module.gates();
 
             this.nodes.push(Node { data: (), module });
